@@ -98,6 +98,18 @@ Theorem c14_create_atomic_cosmos :
 Proof. exact c14_create_cosmos_lemma. Qed.
 Print Assumptions c14_create_atomic_cosmos.
 
+(* a request or an attempt that cannot be encoded, at ANY position of the tree, makes the cosmosdb
+   Create fail on ANY container with nothing written (planToItems fails before the first batch) *)
+Theorem c14_create_unencodable_cosmos :
+  forall (enc_req : blob -> option code) (dec_req : tok -> code -> option blob)
+         (enc_att : attempt -> option code) (dec_att : tok -> code -> option attempt)
+         (stage : nat) (p : spln) (c : cdb) (a : sact),
+    In a (pln_actions p) ->
+    (enc_req (sa_req a) = None \/ exists x, In x (sa_atts a) /\ enc_att x = None) ->
+    CosmosModel.create_stage enc_req dec_req enc_att dec_att stage p c = (c, false).
+Proof. exact c14_create_unencodable_cosmos_lemma. Qed.
+Print Assumptions c14_create_unencodable_cosmos.
+
 (* The limit of that atomicity, stated and proved rather than hidden: the two batches are not atomic
    together. If the search batch fails (create_stage 1) although the plan could be created, Create
    returns an error while the plan is completely stored: it can be read, and it has no search entry
